@@ -44,7 +44,9 @@ META = {
                     "ICP basin clause: the initial nearest-neighbour assignment is the true correspondence (hypothesis of icp_recovers)"],
     "partial": ["EPnP recovery from exact projections is not modelled (six-stage pipeline of external kernels): ground-truth comparison on "
                 "generated scenes only (sampling)",
-                "floating-point accuracy of the returned transform rides on the correspondence tolerances (theorems are over the reals)",
+                "floating-point accuracy of the returned transform rides on the correspondence tolerances (theorems are over the reals); "
+                "unit norm of the returned quaternion is checked to 32 eps (not re-normalised product of float SVD factors), EPnP accuracy "
+                "against empirical tier tolerances (>= 50 x the worst of 20 000 clean scenes per tier)",
                 "ICP 'recovers small exact rigid perturbations': proved under the explicit basin hypothesis (correct initial assignment); that a "
                 "given perturbation size implies the hypothesis is checked by sampling"],
 }
